@@ -722,7 +722,15 @@ def _generate_color_font(config: FontConfig, inputs: Iterable[InputGlyph]):
     color_glyphs = []
     glyph_order = list(ufo.glyphOrder)
     assert glyph_order[0] == ".notdef"
+    glyph_names_seen = set()
     for glyph_input in inputs:
+        # two inputs for one glyph would silently merge; refuse instead
+        if glyph_input.glyph_name in glyph_names_seen:
+            raise ValueError(
+                f"Multiple inputs resolve to glyph name {glyph_input.glyph_name!r}"
+                f" (codepoints {glyph_input.codepoints})"
+            )
+        glyph_names_seen.add(glyph_input.glyph_name)
         if glyph_input.glyph_name in glyph_order:
             gid = glyph_order.index(glyph_input.glyph_name)
         else:
